@@ -2,6 +2,7 @@ package sym
 
 import (
 	"fmt"
+	"go/types"
 	"strings"
 )
 
@@ -238,6 +239,73 @@ func registerSyncModels(e *Engine) {
 			r := x.callValue(fr, a[1], []Value{en.Key, en.Val}, nil, nil)
 			if t, ok := r.(*Term); ok && !x.Branch(t) {
 				break
+			}
+		}
+		return nil
+	}
+
+	// sync.Pool. A pool is provider-lifetime (usually package-level) state shared by
+	// all requests, so one request is executed against an arbitrary history and under
+	// an arbitrary schedule of the others:
+	//  * Get returns what New builds, or an object an earlier request put back. For a
+	//    *bytes.Buffer that is a buffer holding whatever that request left in it - an
+	//    arbitrary byte string unless this request resets it (flag hist.abortedclient:
+	//    natively the history is a request whose client aborted the transfer);
+	//  * after Put the object belongs to whoever gets it next: byte slices that still
+	//    alias a buffer put back (Buffer.Bytes) have arbitrary content from then on
+	//    (flag sched.interleave: natively another request is served before the bytes
+	//    are consumed).
+	// Pools of other object types hand out fresh objects only (stated bound).
+	poolT := func() types.Type { return e.namedType("sync", "Pool") }
+	bufferT := func() types.Type { return e.namedType("bytes", "Buffer") }
+	isBufPtr := func(x *Exec, v Value) (*Pointer, bool) {
+		iv, ok := x.force(v).(*IfaceV)
+		if !ok || iv.T == nil {
+			return nil, false
+		}
+		pt, ok := iv.T.(*types.Pointer)
+		if !ok || !types.Identical(pt.Elem(), bufferT()) {
+			return nil, false
+		}
+		p, ok := x.force(iv.V).(*Pointer)
+		if !ok || p.IsNil() {
+			return nil, false
+		}
+		return p, true
+	}
+	m["(*sync.Pool).Get"] = func(x *Exec, fr *frame, a []Value) Value {
+		k, _ := x.syncKey(a[0])
+		pp := x.force(a[0]).(*Pointer)
+		var obj Value = NilIface
+		if nf, ok := x.force(x.getField(pp, poolT(), "New")).(*FuncV); ok && nf != nil && (nf.Fn != nil || nf.Native != nil) {
+			obj = x.callFuncV(fr, nf, nil, nil)
+		}
+		if bp, ok := isBufPtr(x, obj); ok {
+			x.poolSeq++
+			reused := x.sym(fmt.Sprintf("pool!%d.reused", x.poolSeq), SBool)
+			x.bounds["sync.Pool of *bytes.Buffer: leftover content of a reused buffer is one arbitrary string"] = 1
+			if x.Branch(reused) {
+				left := x.sym(fmt.Sprintf("pool!%d.leftover", x.poolSeq), SStr)
+				cur := bytesTerm(x, x.getField(bp, bufferT(), "buf"))
+				x.setField(bp, bufferT(), "buf", &BytesV{T: Concat(left, cur)})
+				x.assume(x.sym("hist.abortedclient", SBool))
+			}
+		} else if iv, ok := x.force(obj).(*IfaceV); ok && iv.T != nil {
+			x.bounds["sync.Pool of "+iv.T.String()+": only fresh objects (reuse not modelled)"] = 1
+		}
+		_ = k
+		return obj
+	}
+	m["(*sync.Pool).Put"] = func(x *Exec, fr *frame, a []Value) Value {
+		x.syncKey(a[0])
+		if bp, ok := isBufPtr(x, a[1]); ok {
+			als := x.bufAliases[bp.Cell]
+			if len(als) > 0 {
+				x.assume(x.sym("sched.interleave", SBool))
+				for _, b := range als {
+					b.T = x.fresh("clobbered", SStr)
+				}
+				x.bufAliases[bp.Cell] = nil
 			}
 		}
 		return nil
